@@ -285,6 +285,10 @@ func (p *PatchExecutor) apply() error {
 			log.Errorf("Failed to remove goat_generated.go: %v", err)
 			return err
 		}
+		// remove goat package if empty, as clean does
+		if empty, err := utils.IsDirEmpty(p.cfg.GoatPackagePath); err == nil && empty {
+			os.RemoveAll(p.cfg.GoatPackagePath)
+		}
 		return nil
 	}
 
